@@ -39,6 +39,7 @@ type Program struct {
 	sortCache  map[types.Type]Sort
 	fresh      int
 	writeSets  map[*ssa.Function]*FrameSet
+	writeSetsNoFV map[*ssa.Function]*FrameSet
 	srcCache   map[string][]byte
 	concTypes  []types.Type
 }
@@ -246,6 +247,9 @@ func (p *Program) structSort(named *types.Named, st *types.Struct) Sort {
 		name = Sort("S$" + typeName(named))
 		if named.TypeArgs().Len() > 0 {
 			name = Sort("S$" + typeName(named) + "$" + shortHash(named.String()))
+		}
+		if named.Obj().Pkg() != nil && !inModule(named.Obj().Pkg()) {
+			externalStructSorts[name] = true
 		}
 	} else {
 		name = Sort("S$anon$" + shortHash(st.String()))
@@ -550,3 +554,19 @@ func loopBlocks(h *ssa.BasicBlock) map[*ssa.BasicBlock]bool {
 }
 
 var _ = ast.Inspect
+
+// externalStructSorts: struct sorts of types declared outside the module (their heaps are outside every frame claim).
+var externalStructSorts = map[Sort]bool{}
+
+func isExternalHeap(name string) bool {
+	if !strings.HasPrefix(name, "H$") {
+		return false
+	}
+	rest := name[2:]
+	for s := range externalStructSorts {
+		if strings.HasPrefix(rest, string(s)+"$") {
+			return true
+		}
+	}
+	return false
+}
